@@ -50,6 +50,10 @@ pub fn victim_main(args: &[String]) -> i32 {
         }
     };
     let config = config_for(&job.cfg, &job.paths);
+    // optional cap on any single allocation (C27 engine leg): exceeding it ends the process with exit 77
+    if let Some(limit) = std::env::var("RV_ALLOC_LIMIT").ok().and_then(|v| v.parse::<usize>().ok()) {
+        crate::bw::arm(limit);
+    }
     let res = run_config(&config, job.offline, &empty_exceptions());
     let kill_points = routinator::verif::kill_count();
     let (code, result) = match res {
